@@ -524,7 +524,9 @@ pub fn gen_problem(rng: &mut Rng, cfg: &GenCfg) -> SProblem {
         tws
     };
     let gen_place = |rng: &mut Rng, tag: Option<String>| -> SPlace {
-        SPlace { loc: rng.usize(n_depots.min(n_locs - 1), n_locs - 1), dur: rng.range(0, 30), tws: gen_tws(rng), tag }
+        // one place in ten lies at a depot: such a job can be served inside the departure (or arrival) stop
+        let lo = if rng.chance(1, 10) { 0 } else { n_depots.min(n_locs - 1) };
+        SPlace { loc: rng.usize(lo, n_locs - 1), dur: rng.range(0, 30), tws: gen_tws(rng), tag }
     };
     let gen_demand = |rng: &mut Rng| -> Vec<i64> { (0..dims).map(|_| rng.range(0, 4)).collect() };
 
